@@ -109,6 +109,18 @@ Proof.
   apply step_msgs_new.
 Qed.
 
+(* a boolean test for [all_legal], for concrete example histories *)
+Definition all_legal_b (st : state) (h : hist) : bool :=
+  forallb (fun x => match x with (s, n, o) => match r_notes (step s n o) with [] => true | _ => false end end)
+          (trace st h).
+Lemma all_legal_b_sound st h : all_legal_b st h = true -> all_legal st h.
+Proof.
+  unfold all_legal_b, all_legal. intros H s now o Hi. rewrite forallb_forall in H.
+  specialize (H _ Hi). cbv beta iota in H. unfold legal. destruct (r_notes (step s now o)); [reflexivity|discriminate].
+Qed.
+Lemma reachable_by st h : all_legal_b empty_state h = true -> st = run empty_state h -> reachable st.
+Proof. intros H E. exists h. split; [apply all_legal_b_sound; exact H|exact E]. Qed.
+
 Print Assumptions step_ids_unique.
 Print Assumptions step_refs_ok.
 Print Assumptions step_error_unchanged.
